@@ -57,10 +57,13 @@ def run_pricing(pid, tier, seed, work, t0, M):
     results = M.validate_all(work, traces, "TracePure")
     scheds = {}
     # app-level traces (real MsgJoinPool / MsgExitPool / swaps through ABCI) carry the C0x.step.* checks
-    if P.get("app_walks"):
-        fam, (n, depth) = P["app_walks"]["family"], P["app_walks"][tier]
+    aw = P.get("app_walks") or []
+    if isinstance(aw, dict):
+        aw = [aw]
+    for j, w in enumerate(aw):
+        fam, (n, depth) = w["family"], w[tier]
         ws = M.gen_walks(exe, work, fam, n, depth, seed)
-        tr2, stats = M.replay_on_impl(exe, work, ws, seed, tag="app")
+        tr2, stats = M.replay_on_impl(exe, work, ws, seed, tag="app%d" % j)
         results += M.validate_all(work, tr2, "Trace")
         for s in ws:
             scheds[s["id"]] = s
